@@ -109,7 +109,7 @@ def draws(space, seed, n):
 
 # ------------------------------------------------------------------------------------------------
 # algorithm configurations (JSON-able nested lists)
-#   ['sweep'] | ['rand', seed] | ['dedup', inner, hashmod, auto, maxdup, maxatt]
+#   ['sweep'] | ['rand', seed|None] | ['dedup', inner, hashmod, auto, maxdup, maxatt]
 #   ['regevo', pop, tour, seed] | ['hill', batch, init, seed] | ['nsga2', pop, seed] | ['neat', pop, seed]
 #   ['gevo', init_cfg, init_size|None, upd, nchild]   upd: ['none'] | ['last', n] | ['top', n] | ['laststep', a, b]
 
@@ -180,6 +180,16 @@ def make(cfg, space):
       u = selectors.Last(lambda step, a=upd[1], b=upd[2]: a + step % b)
     return e.Evolution(gevo_children(space, nchild), population_init=(ig, size) if size is not None else ig, population_update=u)
   raise KeyError(k)
+
+def unseeded_randoms(alg):
+  p = pg(); e = evo()
+  if isinstance(alg, p.geno.Deduping):
+    return unseeded_randoms(alg.generator)
+  if isinstance(alg, e.Evolution):
+    return unseeded_randoms(alg._init_population_generator)
+  if isinstance(alg, p.geno.Random) and alg.seed is None:
+    return [alg]
+  return []
 
 def find_evo(alg):
   """The Evolution instance inside a (possibly wrapped) algorithm, or None."""
@@ -274,6 +284,14 @@ class Live:
   def fresh(self, record=None):
     alg = make(self.cfg, self.space)
     alg.setup(self.space.spec)
+    if record is not None:
+      for rnd in unseeded_randoms(alg):
+        rnd._c15_log = []
+        def logged(_r=rnd, _o=rnd._propose):
+          d = _o()
+          _r._c15_log.append(self.space.idx(d))
+          return d
+        rnd._propose = logged
     ev = find_evo(alg)
     if ev is not None and record is not None:
       orig = ev._reproduction
@@ -288,6 +306,8 @@ class Live:
     """Returns dict(snaps=[(history_json, obs)], proposals=[idx...], repro=[[idx]], terminal=None|(event, code), updates=[[pid...]])."""
     p = pg()
     case, space, cfg = self.case, self.space, self.cfg
+    import random as _random
+    _random.seed(json.dumps(case, sort_keys=True))     # unseeded generators / selectors draw from the global PRNG
     space.keymap = {}
     repro = []
     alg = self.fresh(repro)
@@ -497,15 +517,15 @@ def lag_sched(n, w):
 def gen_cfg(rng, kind):
   seed = rng.choice([1, 2, 7])
   if kind == 'sweep': return ['sweep']
-  if kind == 'rand': return ['rand', seed]
+  if kind == 'rand': return ['rand', seed if rng.random() < 0.7 else None]
   if kind == 'regevo':
     t = rng.choice([2, 3]); return ['regevo', rng.choice([t, t + 1, 5]), t, seed]
   if kind == 'hill': return ['hill', rng.choice([1, 2, 3]), rng.choice([1, 2, 3]), seed]
   if kind == 'nsga2': return ['nsga2', rng.choice([2, 3]), seed]
   if kind == 'neat': return ['neat', rng.choice([2, 3, 4]), seed]
   if kind == 'gevo':
-    init = rng.choice([['sweep'], ['rand', seed]])
-    size = rng.choice([None, 0, 1, 2, 3, 4]) if init[0] == 'sweep' else rng.choice([1, 2, 3, 4])
+    init = rng.choice([['sweep'], ['rand', seed], ['rand', None], ['dedup', ['rand', seed], 0, 0, 1, rng.choice([3, 100])]])
+    size = rng.choice([None, 0, 1, 2, 3, 4]) if init[0] != 'rand' else rng.choice([1, 2, 3, 4])
     upd = rng.choice([['none'], ['last', rng.choice([1, 2, 3])], ['top', rng.choice([1, 2])], ['laststep', rng.choice([1, 2]), rng.choice([2, 3])]])
     return ['gevo', init, size, upd, rng.choice([1, 1, 2, 3])]
   if kind.startswith('dedup-'):
@@ -557,14 +577,17 @@ def random_need(alg, extra=0):
     return random_need(alg._init_population_generator, extra)
   return alg.num_proposals + extra + 8
 
-def enc_alg(cfg, space, res, need):
+def enc_alg(cfg, space, res, need, obj):
+  """obj: the live instance of this configuration (an unseeded Random has its draws logged on it)."""
   k = cfg[0]
   if k == 'sweep':
     return [0]
   if k == 'rand':
+    if cfg[1] is None:
+      return [6, list(obj._c15_log)]
     return [1, draws(space, cfg[1], need)]
   if k == 'dedup':
-    return [2, enc_alg(cfg[1], space, res, need), cfg[2], cfg[3], cfg[4], cfg[5]]
+    return [2, enc_alg(cfg[1], space, res, need, obj.generator), cfg[2], cfg[3], cfg[4], cfg[5]]
   rp = res['repro']
   if k == 'regevo':
     return [3, [1, draws(space, cfg[3], need)], [cfg[1]], [1, cfg[1]], rp]
@@ -577,7 +600,7 @@ def enc_alg(cfg, space, res, need):
   if k == 'gevo':
     _, init, size, upd, nchild = cfg
     u = dict(none=[0], last=[1] + upd[1:], top=[2] + upd[1:], laststep=[5] + upd[1:])[upd[0]]
-    return [3, enc_alg(init, space, res, need), trlib.opt(size), u, rp]
+    return [3, enc_alg(init, space, res, need, obj._init_population_generator), trlib.opt(size), u, rp]
   raise KeyError(k)
 
 EV = {'p': 0, 'f': 1, 'x': 2}
@@ -590,7 +613,7 @@ def model_case(case, res):
     rewards = [pack_reward((float(r), float((space.m - 1 - i + r) % 5))) for i, r in enumerate(case['rewards'])]
   else:
     rewards = list(case['rewards'])
-  return [enc_alg(cfg, space, res, need), space.m, rewards, [EV[e] for e in case['sched']]]
+  return [enc_alg(cfg, space, res, need, res['live']), space.m, rewards, [EV[e] for e in case['sched']]]
 
 def evaluate_full(case):
   """(model case tree, implementation outcome tree, oracle hits, info)."""
